@@ -1,10 +1,49 @@
-(* Properties_C13.v — statements are added as the proofs land (see DESIGN.md). *)
+(* Properties_C13.v — C13: the object unmarshaller accepts exactly the token
+   streams that fit the target.  Statements only; proofs in ObjProof.v (more
+   are added as they land: acceptance of all renderings is the token
+   round-trip theorem of C01). *)
 From Coq Require Import List ZArith.
-Require Import Tok GoVal Marshal Unmarshal.
+Require Import Tok TokGrammar TokGrammarProof GoVal Marshal Unmarshal ObjProof.
 Import ListNotations.
 Open Scope Z_scope.
 
-Example C13_model_runs :
-  marshal_top [] (Atlas [] 0) (GSlice (GNum I8)) (VSlice (Some [VNum 1; VNum (-2)])) =
-  MOk [Tok (ArrOpen 2) None; Tok (Int 1) None; Tok (Int (-2)) None; Tok ArrClose None].
+(* The model has no panic outcome: every partial Go operation (Set on an
+   unassignable value, index out of range, SetBytes on an array ...) is an
+   explicit UErr.  Completion is signalled only when the tokens consumed form
+   exactly one complete value. *)
+Theorem C13_done_only_on_complete_value : forall E A f t cur ts v rest,
+  unmarshal E A f t cur ts = UOk v rest ->
+  exists used n, ts = used ++ rest /\ used <> [] /\ map norm_tok used = flatten n.
+Proof. exact unmarshal_done_wf. Qed.
+Print Assumptions C13_done_only_on_complete_value.
+
+(* An error is attributed to one of the tokens given. *)
+Theorem C13_error_position : forall E A f t cur ts k,
+  unmarshal E A f t cur ts = UErr k -> (1 <= k <= length ts)%nat.
+Proof. exact unmarshal_err_position. Qed.
+
+(* The verdict depends only on the tokens up to completion / the offending token. *)
+Theorem C13_frame_ok : forall E A f t cur ts v rest x,
+  unmarshal E A f t cur ts = UOk v rest -> unmarshal E A f t cur (ts ++ x) = UOk v (rest ++ x).
+Proof. exact unmarshal_frame_ok. Qed.
+Theorem C13_frame_err : forall E A f t cur ts k x,
+  unmarshal E A f t cur ts = UErr k -> unmarshal E A f t cur (ts ++ x) = UErr (k + length x).
+Proof. exact unmarshal_frame_err. Qed.
+Print Assumptions C13_frame_err.
+
+(* documented rejections, evaluated by the kernel on a struct target *)
+Definition c13_A := Atlas [AE (GStruct 100) None (EStruct [FE [107] [0%nat] GStr false false])] 0.
+Definition c13_E : tenv := [(100, [GStr])].
+Example C13_unknown_field_rejected :
+  unmarshal_top c13_E c13_A (GStruct 100) [Tok (MapOpen (-1)) None; Tok (Str [120]) None; Tok (Str []) None; Tok MapClose None] = UTErr 2.
+Proof. vm_compute. reflexivity. Qed.
+Example C13_length_mismatch_rejected :
+  unmarshal_top c13_E c13_A (GStruct 100) [Tok (MapOpen 2) None; Tok (Str [107]) None; Tok (Str []) None; Tok MapClose None] = UTErr 4.
+Proof. vm_compute. reflexivity. Qed.
+Example C13_duplicate_map_key_rejected :
+  unmarshal_top [] (Atlas [] 0) (GMap GStr GBool)
+    [Tok (MapOpen (-1)) None; Tok (Str [97]) None; Tok (Bool true) None; Tok (Str [97]) None; Tok (Bool true) None; Tok MapClose None] = UTErr 4.
+Proof. vm_compute. reflexivity. Qed.
+Example C13_array_overflow_rejected :
+  unmarshal_top [] (Atlas [] 0) (GArr 1 GBool) [Tok (ArrOpen (-1)) None; Tok (Bool true) None; Tok (Bool true) None; Tok ArrClose None] = UTErr 3.
 Proof. vm_compute. reflexivity. Qed.
